@@ -244,6 +244,35 @@ func c15seq(c *run.Ctx) {
 				c.Violate(run.Violation{Kind: "jti-accepted-twice", Key: "jti-accepted-twice client-assertion late replay", Detail: "an assertion accepted earlier in the history was accepted again after other assertions had been presented: " + a.desc})
 			}
 		}
+		// the second named by exp: whatever instant the assertion layer still honours an assertion at, the replay guard has to
+		// remember its jti at that instant too (probed at a random offset inside the second of exp and at the instant itself)
+		for _, target := range []string{"pk-rs", "pk-es"} {
+			exp := now().Add(time.Duration(3+r.Intn(40)) * time.Second).Truncate(time.Second)
+			cl := map[string]interface{}{"iss": target, "sub": target, "aud": world.TokenURL, "exp": exp.Unix(), "iat": now().Unix(), "jti": nextJTI("ca-edge")}
+			key, alg, kid := interface{}(keys.ClientRSA[0]), "RS256", "k0"
+			if target == "pk-es" {
+				key, alg, kid = keys.ClientEC[0], "ES256", "k1"
+			}
+			as := world.SignJWT(key, alg, map[string]interface{}{"kid": kid}, cl)
+			form := url.Values{"grant_type": {"client_credentials"}, "scope": {"fosite"}}
+			au := world.Auth{Mode: "none", Assertion: as}
+			if out := w.Token(form, au); out.Err != nil {
+				c.Count("c15_valid_refused:edge-first-use:"+out.ErrName, 1)
+				continue
+			}
+			off := time.Duration(r.Intn(1000)) * time.Millisecond
+			if r.Intn(4) == 0 {
+				off = 0
+			}
+			world.Sleep(exp.Sub(now()) + off)
+			out2 := w.Token(form, au)
+			c.Case(fmt.Sprintf("client-assertion replay-in-the-second-of-exp offset-zero=%v accepted=%v err=%s", off == 0, out2.Err == nil, out2.ErrName))
+			c.Count("c15_replays_rejected", 1)
+			c.Count("c15_exp_second_replays", 1)
+			if out2.Err == nil {
+				c.Violate(run.Violation{Kind: "jti-accepted-twice", Key: "jti-accepted-twice client-assertion replay within the second of exp", Detail: fmt.Sprintf("an assertion used once was accepted again %s after the start of the second its exp names: it is still honoured as unexpired there, but its jti was already forgotten", off), History: []string{"client " + target, "assertion " + as, fmt.Sprintf("exp %d, replay at %s", exp.Unix(), now().Format(time.RFC3339Nano))}})
+			}
+		}
 		c15Bearer(c, w, round)
 	}
 	c.Sample(map[string]interface{}{"client_assertion_mutations": len(caMuts), "rounds": rounds})
